@@ -76,6 +76,14 @@ CHECKS = {
          "Purity is a statement over histories and schedules: the model shows which per-request objects it depends on, the trace "
          "validation compares every real observation with the fresh-container one.", "6 C19",
          "Trusted: TLC, Json module, net/http, the race detector (dynamic: evidence for the explored schedules only)."),
+ "C11": ("TLC exhaustive model checking of MC_Registry (every registration history up to MaxOps over Add / Remove / Handle; Layer B - "
+         "webServices, ServeMux patterns, root flag as container.go keeps them, with a model of net/http.ServeMux lookup - must answer every "
+         "probe like a fresh container with Layer A's content; Add never panics; three legacy behaviours refuted as counter-models) + replay of "
+         "every complete history on real containers + TLC trace validation (RegistryTrace): after every operation a fresh container is built "
+         "from the content the specification computes and 23 probes go through ServeHTTP and Dispatch of both",
+         "History independence is a statement over all operation sequences: exhaustive up to MaxOps on the model, every such history and "
+         "random ones of up to 30 operations on the real code with a differential oracle.", "6 C11",
+         "Trusted: TLC, Json module, net/http (ServeMux). Duplicate roots / duplicate Handle patterns are not generated (documented exits/panics)."),
 }
 
 NOT_YET = "check under construction in this round; see DESIGN.md section 13 (build order)"
